@@ -133,7 +133,34 @@ func c14One(c *vk.Case, set c14Set, seed uint64) {
 			return model.MakeLog(d.EventName, d.Inputs, []any{append([]byte{7}, r.Bytes(19)...), r.BigBits(200)}, vk.Pick(r, addrs))
 		}}
 	}
-	chain := simnode.NewChain(nextChainID(), gen.Content(co))
+	if set.mode == model.ModeTx && r.Chance(1, 3) {
+		// an event is declared but none of its inputs is stored: the integration still indexes transactions, and what
+		// its fields need does not depend on which blocks happen to hold a log of that event
+		d.EventName = "Probe"
+		for _, f := range c14Event {
+			f.Column = ""
+			d.Inputs = append(d.Inputs, f)
+		}
+		addrs := [][]byte{r.Bytes(20), r.Bytes(20)}
+		co.MaxLogs = 1
+		co.Makers = []gen.LogMaker{func(r *vk.RNG) simnode.Log {
+			return model.MakeLog(d.EventName, d.Inputs, []any{append([]byte{7}, r.Bytes(19)...), r.BigBits(200)}, vk.Pick(r, addrs))
+		}}
+		c.Obs("runs_with_unselected_event", 1)
+	}
+	content := gen.Content(co)
+	if d.EventName == "Probe" && set.mode == model.ModeTx {
+		inner := content
+		content = func(b *simnode.Block) {
+			inner(b)
+			if b.Num%2 == 0 { // every other block holds no log of the event
+				for i := range b.Txs {
+					b.Txs[i].Logs = nil
+				}
+			}
+		}
+	}
+	chain := simnode.NewChain(nextChainID(), content)
 	chain.Grow(4)
 	node := simnode.Global().NewNode(chain)
 	spec := &scen.Spec{Sources: []scen.SourceSpec{{Name: namePoolSrc[0], ChainID: 9, Batch: 2, Concurrency: 1, Poll: "1h", Node: node}}, Decls: []*model.Decl{d}}
